@@ -297,7 +297,8 @@ def run_case(idx, rng, P, rep):
     route = rng.choice(['inst', 'inst', 'update1', 'updateN', 'class'])
     if kind == 'plain-invalid':
         tp = rng.choice(['x', 'y', 's', 'sel', 'nanp'])
-        bad = {'x': rng.choice([99, -1, 'str', float('nan')]), 'y': rng.choice([10, 'str']), 's': rng.choice(['zzz', 5]),
+        # (a complex number is a number: comparing it with the bounds is what fails, with a TypeError)
+        bad = {'x': rng.choice([99, -1, 'str', float('nan'), 1 + 2j]), 'y': rng.choice([10, 'str', 2j]), 's': rng.choice(['zzz', 5]),
                'sel': 'outsider', 'nanp': rng.choice(['str', [1]])}[tp]
     elif kind == 'ref-invalid':
         tp = rng.choice(['x', 'y', 's'])
